@@ -405,6 +405,8 @@ func init() {
 	addPlan("C18", planEntry{Engine: "A", Scenario: "general", Quick: 4, Thorough: 40})
 	addPlan("C07", planEntry{Engine: "A", Scenario: "uncommitted-term-leader", Params: "qw=6", Quick: 6, Thorough: 60})
 	addPlan("C12", planEntry{Engine: "A", Scenario: "install-then-own-snapshot", Params: "seg=1024", Quick: 6, Thorough: 60})
+	addPlan("C17", planEntry{Engine: "A", Scenario: "transfer-target-campaigns-later", Quick: 6, Thorough: 60})
+	addPlan("C16", planEntry{Engine: "A", Scenario: "transfer-target-campaigns-later", Quick: 4, Thorough: 40})
 	addPlan("C02", planEntry{Engine: "A", Scenario: "grown-cluster", Quick: 6, Thorough: 60})
 	addPlan("C06", planEntry{Engine: "A", Scenario: "grown-cluster", Quick: 4, Thorough: 40})
 	addPlan("C08", planEntry{Engine: "A", Scenario: "grown-cluster", Quick: 4, Thorough: 40})
